@@ -144,6 +144,8 @@ type caseSpec struct {
 	// A direction without a processor bypasses the gRPC layer, as h2.Config.Proxy
 	// does for nil processors.
 	Procs string `json:"procs,omitempty"`
+	// Hdr: order/filling of the regular header fields (see regularFields)
+	Hdr int `json:"hdr,omitempty"`
 }
 
 func (c *caseSpec) hasProc(d int) bool {
@@ -308,32 +310,65 @@ type step struct {
 	ended bool
 }
 
-func reqHeaders(ct, enc string) []hpack.HeaderField {
+// regularFields orders the non-pseudo fields of a header block. HTTP/2 leaves the
+// order of fields with different names free (only pseudo-headers must come
+// first). mode 0: content-type, te, grpc-encoding and nothing else (what grpc-go
+// sends); 1: grpc-encoding before content-type; 2: content-type last, after
+// irrelevant and repeated fields; 3: content-type in the middle; 4: all fields
+// in a PRNG order derived from pseed.
+func regularFields(mode int, pseed uint64, request bool, ct, enc string) []hpack.HeaderField {
+	f := func(n, v string) hpack.HeaderField { return hpack.HeaderField{Name: n, Value: v} }
+	var ctF, teF, encF []hpack.HeaderField
+	if ct != "" {
+		ctF = []hpack.HeaderField{f("content-type", ct)}
+	}
+	if request {
+		teF = []hpack.HeaderField{f("te", "trailers")}
+	}
+	if enc != "" {
+		encF = []hpack.HeaderField{f("grpc-encoding", enc)}
+	}
+	ua, acc, xa, xb, to := f("user-agent", "verif-grpc/1.0"), f("grpc-accept-encoding", "gzip,deflate,snappy,identity"), f("x-custom", "a"), f("x-custom", "b"), f("grpc-timeout", "20S")
+	cat := func(parts ...[]hpack.HeaderField) []hpack.HeaderField {
+		var out []hpack.HeaderField
+		for _, p := range parts {
+			out = append(out, p...)
+		}
+		return out
+	}
+	one := func(h hpack.HeaderField) []hpack.HeaderField { return []hpack.HeaderField{h} }
+	switch mode {
+	case 1:
+		return cat(encF, ctF, teF)
+	case 2:
+		return cat(one(xa), encF, one(ua), one(xb), teF, one(to), ctF)
+	case 3:
+		return cat(one(ua), one(xa), ctF, one(acc), one(xb), encF, teF)
+	case 4:
+		all := cat(ctF, teF, encF, one(ua), one(acc), one(xa), one(xb), one(to))
+		rng := rand.New(rand.NewSource(int64(pseed>>3) + 17))
+		if !request {
+			rng = rand.New(rand.NewSource(int64(pseed>>3) + 18))
+		}
+		rng.Shuffle(len(all), func(i, j int) { all[i], all[j] = all[j], all[i] })
+		return all
+	}
+	return cat(ctF, teF, encF)
+}
+
+func reqHeaders(c *caseSpec, enc string) []hpack.HeaderField {
 	h := []hpack.HeaderField{
 		{Name: ":method", Value: "POST"},
 		{Name: ":scheme", Value: "https"},
 		{Name: ":path", Value: "/verif.Svc/Call"},
 		{Name: ":authority", Value: "origin.example"},
 	}
-	if ct != "" {
-		h = append(h, hpack.HeaderField{Name: "content-type", Value: ct})
-	}
-	h = append(h, hpack.HeaderField{Name: "te", Value: "trailers"})
-	if enc != "" {
-		h = append(h, hpack.HeaderField{Name: "grpc-encoding", Value: enc})
-	}
-	return h
+	return append(h, regularFields(c.Hdr, c.PSeed, true, c.CT, enc)...)
 }
 
-func resHeaders(ct, enc string) []hpack.HeaderField {
+func resHeaders(c *caseSpec, enc string) []hpack.HeaderField {
 	h := []hpack.HeaderField{{Name: ":status", Value: "200"}}
-	if ct != "" {
-		h = append(h, hpack.HeaderField{Name: "content-type", Value: ct})
-	}
-	if enc != "" {
-		h = append(h, hpack.HeaderField{Name: "grpc-encoding", Value: enc})
-	}
-	return h
+	return append(h, regularFields(c.Hdr, c.PSeed, false, c.CT, enc)...)
 }
 
 func trailers() []hpack.HeaderField {
@@ -447,10 +482,9 @@ func execDirect(c *caseSpec) *obs {
 	if o.rd[0] != nil {
 		w0 = o.rd[0].Wire
 	}
-	o.fed[0] = steps(reqHeaders(c.CT, enc0), c.C2S, w0)
+	o.fed[0] = steps(reqHeaders(c, enc0), c.C2S, w0)
 	if c.S2C != nil {
-		rct := c.CT
-		o.fed[1] = steps(resHeaders(rct, c.S2C.Enc), c.S2C, o.rd[1].Wire)
+		o.fed[1] = steps(resHeaders(c, c.S2C.Enc), c.S2C, o.rd[1].Wire)
 	}
 	do := func(d int, s step) {
 		if err := feed(ad[d], s); err != nil {
@@ -811,9 +845,37 @@ func judgeGRPC(v *verdicts, c *caseSpec, d int, o *obs, via string) {
 				eosSeen = "emptydata"
 			}
 		}
-		procs := "procs=" + c.Procs
+		hdrClass := "hdr=?"
+		for _, e := range o.sink[d] {
+			if e.Kind == 'H' {
+				ci, ei := -1, -1
+				for i, h := range e.Hdr {
+					if h.Name == "content-type" && ci < 0 {
+						ci = i
+					}
+					if h.Name == "grpc-encoding" && ei < 0 {
+						ei = i
+					}
+				}
+				switch {
+				case ei < 0:
+					hdrClass = "hdr=no-encoding-field"
+				case ci < 0:
+					hdrClass = "hdr=no-content-type"
+				case ei < ci:
+					hdrClass = "hdr=encoding-before-content-type"
+				default:
+					hdrClass = "hdr=content-type-first"
+				}
+				if len(e.Hdr) > 7 {
+					hdrClass += "+extras"
+				}
+				break
+			}
+		}
+		procs := hdrClass + "|procs=" + c.Procs
 		if c.Procs == "" {
-			procs = "procs=both"
+			procs = hdrClass + "|procs=both"
 		}
 		size := ""
 		for _, p := range rd.Payloads {
@@ -1186,11 +1248,12 @@ type cutBlock struct {
 	NRand  int         `json:"n_rand"`
 	Idx    int         `json:"idx"`
 	Procs  string      `json:"procs,omitempty"`
+	Hdr    int         `json:"hdr,omitempty"`
 }
 
 func (b *cutBlock) caseFor(cuts []int) *caseSpec {
 	f := &flowSpec{Enc: b.Enc, Msgs: b.Msgs, EOS: b.EOS, Cuts: cuts}
-	c := &caseSpec{Kind: "grpc", Via: "direct", PSeed: b.PSeed, CT: grpcCT, Procs: b.Procs}
+	c := &caseSpec{Kind: "grpc", Via: "direct", PSeed: b.PSeed, CT: grpcCT, Procs: b.Procs, Hdr: b.Hdr}
 	if b.Dir == 0 {
 		c.C2S = f
 	} else {
@@ -1300,6 +1363,7 @@ func cutBlocks(r *vh.Run) []cutBlock {
 				if idx%3 == 2 {
 					b.Procs = dirName[dir] // a processor for this direction only
 				}
+				b.Hdr = (idx / 6) % 5 // header layout varies from stream to stream
 				idx++
 				rd := b.caseFor(nil).flow(dir).render(b.PSeed, dir)
 				b.TwoCut = len(rd.Wire) <= cap2
@@ -1391,7 +1455,7 @@ func randProcs(rng *rand.Rand) string {
 // PRNG-chosen.
 func largeCase(r *vh.Run, idx int) *caseSpec {
 	rng := r.Rng("c11-large", idx)
-	c := &caseSpec{Kind: "grpc", Via: "direct", PSeed: rng.Uint64(), CT: grpcCT, Procs: randProcs(rng)}
+	c := &caseSpec{Kind: "grpc", Via: "direct", PSeed: rng.Uint64(), CT: grpcCT, Procs: randProcs(rng), Hdr: idx % 5}
 	dir := rng.Intn(2)
 	f := &flowSpec{Enc: encs[rng.Intn(len(encs))]}
 	small := []int{0, 1, 5, 14, 100, 70000}
@@ -1480,6 +1544,7 @@ func randCase(r *vh.Run, stream string, idx int, relay bool) *caseSpec {
 		c.Conc = !relay && rng.Intn(3) == 0
 	}
 	c.Procs = randProcs(rng)
+	c.Hdr = idx % 5 // a fixed share of every header layout in every run
 	return c
 }
 
@@ -1550,7 +1615,7 @@ func randCuts(rng *rand.Rand, n int) []int {
 func runNonGRPC(r *vh.Run, via string, n int, stream string) {
 	for i := 0; i < n; i++ {
 		rng := r.Rng(stream, i)
-		c := &caseSpec{Kind: "nongrpc", Via: via, PSeed: rng.Uint64()}
+		c := &caseSpec{Kind: "nongrpc", Via: via, PSeed: rng.Uint64(), Hdr: i % 5}
 		ambiguous := rng.Intn(6) == 0
 		if ambiguous {
 			c.Kind = "ambiguous-ct"
